@@ -331,8 +331,15 @@ fn start_markers(cx: &mut Ctx, g: &Grammar) {
     }
 }
 
+pub fn soft_keywords_pub(cx: &mut Ctx, rule: &str) {
+    soft_keywords_named(cx, rule)
+}
+
 fn soft_keywords(cx: &mut Ctx) {
-    let rule = "C01.S1";
+    soft_keywords_named(cx, "C01.S1")
+}
+
+fn soft_keywords_named(cx: &mut Ctx, rule: &str) {
     cx.rule(rule, "the soft-keyword pass is a relabelling: every rewritten token is the same soft keyword re-tagged as Name with its own range; soft_to_name spells match/case/type as the keyword table does; the start-of-line set is {StartModule, StartInteractive, Newline, Indent, Dedent}");
     cx.floor(rule, 5);
     let sk = match sm::load(&cx.repo, "parser/src/soft_keywords.rs") {
@@ -395,7 +402,7 @@ fn soft_keywords(cx: &mut Ctx) {
     } else {
         cx.fail(rule, &format!("{}/source", rule), &sk.loc(nx), "the returned token is not underlying.next() (possibly re-tagged)");
     }
-    soft_keyword_lookahead(cx, &sk, nx);
+    soft_keyword_lookahead(cx, &sk, nx, &format!("{}b", rule));
     // start-of-line set: the last matches!( tok, ... ) in the start_of_line assignment
     let mut sol: Option<BTreeSet<String>> = None;
     sm::for_each_expr_in_block(&nx.block, |e| {
@@ -434,8 +441,8 @@ fn soft_keywords(cx: &mut Ctx) {
 }
 
 /// C01.S2: look-ahead loops with a bracket-depth counter.
-fn soft_keyword_lookahead(cx: &mut Ctx, sk: &Src, nx: &syn::ImplItemFn) {
-    let rule = "C01.S2";
+fn soft_keyword_lookahead(cx: &mut Ctx, sk: &Src, nx: &syn::ImplItemFn, rule: &str) {
+    let rule = if rule == "C01.S1b" { "C01.S2" } else { rule };
     cx.rule(rule, "in every token look-ahead loop of the soft-keyword pass that keeps a bracket-depth counter, each arm that sets a boolean flag (seen_colon, seen_lambda, is_type_alias) is guarded by depth == 0, the opening and closing bracket arms adjust the counter by +1/-1 for matching bracket kinds, and the loop stops at Newline");
     cx.floor(rule, 5);
     let mut loops = 0;
